@@ -30,7 +30,9 @@ FP = [
     ('Python/dawgie/db/shelve/comms.py', ['Worker.dataReceived', 'Worker.__init__']),
     ('Python/dawgie/pl/logger/__init__.py', ['LogSink.dataReceived', 'LogSink.__init__']),
     ('Python/dawgie/security.py', ['TwistedWrapper', 'use_tls']),
-    ('Python/dawgie/pl/message.py', ['loads', 'dumps']),
+    ('Python/dawgie/pl/message.py', ['loads', 'dumps', 'send', 'receive']),
+    ('Python/dawgie/pl/logger/__init__.py', ['TwistedHandler']),
+    ('Python/dawgie/db/shelve/comms.py', ['Connector']),
 ]
 
 # short alias payloads (the loads shim of the driver maps them to real objects)
@@ -822,6 +824,7 @@ def client_cases(ctx, real):
     # send
     for spec in REAL['farm']:
         cases.append({'fn': 'send', 'spec': spec})
+        cases.append({'fn': 'send', 'spec': spec, 'via': 'hand'})
     return cases
 
 
@@ -832,6 +835,8 @@ def run_client(ctx, real):
         d = {'fn': c['fn']}
         if c['fn'] == 'send':
             d['spec'] = c['spec']
+            if 'via' in c:
+                d['via'] = c['via']
         else:
             d.update(k=c['k'], chunks=[x.hex() for x in c['chunks']])
             if 'spec' in c:
@@ -916,6 +921,95 @@ def run_client(ctx, real):
                    {'source': 'correspondence', 'expected': repr(m), 'observed': repr(want)})
 
 
+# ---------------------------------------------------------------------------
+# sender side of the log channel: TwistedHandler on SocketHandler
+# ---------------------------------------------------------------------------
+def logsend_cases(ctx):
+    rng = random.Random('%s:C14:logsend' % ctx.seed)
+    cases = [
+        {'events': [[10, 1, False], [11, 2, False]], 'env': [[[100, 101], True]], 'cuts': [3, 7]},
+        {'events': [[10, 1, False], [200, 2, False], [400, 3, False]], 'env': [[[100], False], [[], True]], 'cuts': []},
+        {'events': [[10, 1, False], [11, 2, True], [12, 3, False], [13, 4, False]],
+         'env': [[[], True], [[7], True]], 'cuts': [1] * 40},
+        {'events': [[5, 1, False], [6, 2, True], [7, 3, False], [8, 4, False], [9, 5, False]],
+         'env': [[[50], True], [[51, 52], False], [[], True]], 'cuts': [9, 9]},
+        {'events': [[1, 1, False], [2, 2, False]], 'env': [], 'cuts': []},
+    ]
+    for _ in range(ctx.n(150, 2500)):
+        t, evs = 0, []
+        for i in range(rng.randint(2, 12)):
+            t += rng.choice([0, 1, 1, 2, 5, 40])
+            evs.append([t, i + 1, rng.random() < 0.15])
+        env, nid = [], 100
+        for _a in range(rng.randint(0, 5)):
+            nested = list(range(nid, nid + rng.choice([0, 0, 1, 2, 3])))
+            nid += len(nested)
+            env.append([nested, rng.random() < 0.7])
+        cases.append({'events': evs, 'env': env,
+                      'cuts': [rng.randint(1, 60) for _ in range(rng.choice([0, 1, 3, 10, 40]))]})
+    return cases
+
+
+def run_logsend(ctx):
+    cases = logsend_cases(ctx)
+    impl = ctx.harness('drive_logsend.py', {'cases': cases})['cases']
+    ctx.log('log sender: implementation ran %d histories' % len(cases))
+    stuck = recoverable = 0
+    for c, o in zip(cases, impl):
+        rep = {'source': 'oracle', 'logsend_case': c, 'observed': o}
+        emitted = [e[1] for e in c['events']] + [i for n, _ in c['env'] for i in n]
+        wire = o['steps'][-1]['wire'] if o['steps'] else []
+        if o['during_connect']:
+            ctx.violation('log-write-during-handshake', {'chan': 'log'},
+                          'a log frame was written to the socket while security.connect was in progress', rep)
+        if o['sink'] != wire:
+            ctx.violation('log-sender-receiver-format', {'chan': 'log'},
+                          'LogSink handled %s but the sender wrote %s' % (o['sink'], wire), rep)
+        if len(set(wire)) != len(wire) or not set(wire) <= set(emitted):
+            ctx.violation('log-sender-duplicate', {'chan': 'log'}, 'wire %s, emitted %s' % (wire, emitted), rep)
+        prev = {'sock': False, 'shaking': False, 'q': [], 'wire': []}
+        for (t, r, brk), s in zip(c['events'], o['steps']):
+            if prev['sock'] and not prev['shaking'] and not brk:
+                if s['wire'] != prev['wire'] + prev['q'] + [r] or s['q']:
+                    ctx.violation('log-sender-order', {'chan': 'log'},
+                                  'connected handler: emit %d gave wire %s (before %s, queued %s)'
+                                  % (r, s['wire'], prev['wire'], prev['q']), rep)
+                    break
+            prev = s
+        if o['steps'] and o['steps'][-1]['shaking']:
+            stuck += 1
+            if any(ok for _, ok in c['env'][len(c['env']) - o['left_env']:]):
+                recoverable += 1
+    ctx.note('observation_log_sender_stuck_after_failed_connect',
+             'NOT a claim of C14: TwistedHandler.makeSocket leaves __shaking set when security.connect raises; '
+             'from then on every record is queued, none is sent, no reconnect is attempted '
+             '(LS_stuck_forever / C14_log_sender_recovers_refuted). %d of %d histories end stuck, %d of them '
+             'with a successful connection still available' % (stuck, len(cases), recoverable))
+    exprs = []
+    for c in cases:
+        evs = '[' + ';'.join('(%d, %d, %s)' % (t, r, 'true' if b else 'false') for t, r, b in c['events']) + ']'
+        env = ('[' + ';'.join('(%s, %s)' % (zl(n) if n else '(@nil Z)', 'true' if ok else 'false')
+                              for n, ok in c['env']) + ']') if c['env'] else '(@nil (list Z * bool))'
+        exprs.append('obs_htrace %s %s' % (evs, env))
+    batched = ['[' + '; '.join(exprs[i:i + 50]) + ']' for i in range(0, len(exprs), 50)]
+    res = [x for b in ctx.coq_eval(['DV.Model.LogSend'], batched, chunk=6) for x in b]
+    mism = None
+    keys = []
+    for c, o, m in zip(cases, impl, res):
+        io = [(s['sock'], s['shaking'], s['q'], s['wire'], s['retry'], s['period']) for s in o['steps']]
+        mo = [(a, b, list(q), list(w), rt, p) for a, b, q, w, rt, p in m]
+        if io != mo and mism is None:
+            mism = (c, io, mo)
+        if any(n for n, _ in c['env']) or any(not ok for _, ok in c['env']) or any(b for _, _, b in c['events']):
+            keys.append(('logsend', c['events'], c['env']))
+    ctx.count(evaluations=len(cases), nontrivial_keys=keys)
+    if mism and ctx.nviol == 0:
+        c, io, mo = mism
+        ctx.broken('correspondence LogSend.v vs TwistedHandler',
+                   'case %s\nimplementation: %s\nmodel: %s' % (c, io, mo),
+                   {'source': 'correspondence', 'logsend_case': c, 'expected': repr(mo), 'observed': repr(io)})
+
+
 def replay(ctx):
     """re-execute the case of a replay file against the real code: prints the
     trace of every listed chunking and re-evaluates the chunking oracle on them"""
@@ -988,6 +1082,7 @@ def run(ctx):
         run_big(ctx)
     run_handshake(ctx, real)
     run_client(ctx, real)
+    run_logsend(ctx)
     if not r['ok']:
         ctx.broken('theorem/file %s' % r['failing'], r['log'],
                    {'source': 'proof', 'theorem': r['failing']})
